@@ -63,6 +63,14 @@ def run_case(case):
         timeouts = [[t[0], t[1], 3] for t in timeouts]
     via = case.get("via", "direct")
     hs_len = 0
+    if case.get("ghost"):
+        # another connection of the same process was abandoned in the middle of a frame (after a receive timeout):
+        # connections do not share anything, so this must not matter
+        g_ws, g_fs = make_ws([b"\x82\x7e\x01\x00" + b"G" * 7], at_end="timeout")
+        try:
+            g_ws.recv()
+        except Exception:  # noqa: BLE001 - a timeout, normally; what the abandoned connection does is not judged
+            pass
     if via == "connect":
         net = simnet.Net()
         holder = {}
@@ -136,7 +144,7 @@ def _cls(obs, case, frames, hs_len, wire, delivered):
             if idx < len(bounds) and bounds[idx] not in fb and bounds[idx] > hs_len:
                 t_inside = True
     nt = cut_in_header or t_inside or share
-    obs.cls = (case.get("via", "direct"), case.get("driver", "data_frame"), f"cut_in_header:{int(cut_in_header)}", f"timeout_inside_frame:{int(t_inside)}",
+    obs.cls = (case.get("via", "direct"), case.get("driver", "data_frame"), f"ghost_connection:{int(bool(case.get('ghost')))}", f"cut_in_header:{int(cut_in_header)}", f"timeout_inside_frame:{int(t_inside)}",
                f"shares_handshake_segment:{int(bool(share))}", f"timeouts_delivered:{min(delivered, 4)}", f"ncuts:{min(len(cuts), 6)}")
     obs.nt = (rx.shape(frames), case.get("driver"), case.get("via"), tuple(cuts[:40]), len(cuts), repr(case.get("timeouts"))) if nt else None
     return obs
@@ -202,6 +210,8 @@ def timeout_cases():
                    "driver": driver, "cf": cf, "via": via, "stream": name}
             yield {"frames": specs, "cuts": cuts, "timeouts": [[i, 1, 3] for i in range(first, len(cuts) + 1)],
                    "driver": driver, "cf": cf, "via": via, "stream": name}
+            yield {"frames": specs, "cuts": cuts[::3], "timeouts": [[i, 1, i % 3] for i in range(first, len(cuts[::3]) + 1)],
+                   "driver": driver, "cf": cf, "via": via, "stream": name, "ghost": True}
 
 
 @st.composite
@@ -236,7 +246,7 @@ def cases(draw):
     illegal = any(rm.frame_violation(f, False) not in (None, "cont-without-message", "data-inside-message") for f in frames) or specs[-1].get("op") == 0
     if driver == "frame" and (illegal or any(f.opcode == rm.CLOSE for f in frames)):
         driver = "data_frame"
-    return {"frames": specs, "cuts": cuts, "timeouts": timeouts, "driver": driver, "via": via,
+    return {"ghost": draw(st.integers(0, 3)) == 0, "frames": specs, "cuts": cuts, "timeouts": timeouts, "driver": driver, "via": via,
             "cf": draw(st.booleans()) if driver in ("data_frame", "data") else False,
             "fire": draw(st.integers(0, 3)) == 0 and driver in ("data_frame", "data") and not illegal, "skip": draw(st.integers(0, 4)) == 0 and driver not in rx.RECVS and not illegal}
 
